@@ -192,7 +192,7 @@ class EmitAnalysis:
         out = {}
         for k, v in e.items():
             l = k[1] if isinstance(k, tuple) else k
-            if l in self.interesting and l in live:
+            if l in self.interesting and (l in live or 0 < l <= self.body.mir["argc"]):
                 if isinstance(k, tuple) and k[0] in ("alias", "discr_of") and v not in live:
                     continue
                 if isinstance(k, tuple) and k[0] == "isnone" and v[0] not in live:
@@ -236,6 +236,8 @@ class EmitAnalysis:
         seen = set()
         steps = 0
         self.complete = True
+        argc = b.mir["argc"]
+        self.cond_returns = set()
         stop = err_blocks(b) | diverging_blocks(b)
         self.seen_states = seen
         while stack:
@@ -259,7 +261,10 @@ class EmitAnalysis:
             t = blk["term"]
             k = t["k"]
             if k == "return":
+                pf = frozenset((kk, vv) for kk, vv in e.items() if not isinstance(vv, tuple) and (
+                    (isinstance(kk, int) and 0 < kk <= argc) or (isinstance(kk, tuple) and kk[0] == "d" and isinstance(kk[1], int) and 0 < kk[1] <= argc)))
                 self.returns.add((h, labels))
+                self.cond_returns.add((pf, h, labels))
                 continue
             if k in ("unreachable", "abort", "resume"):
                 continue
@@ -427,13 +432,26 @@ class EmitAnalysis:
             p = op_place(t["args"][1])
             deltas = set()
             srcs = self.flow.sources(p["l"], stop_at_agg=True) if p else []
+            tail = False
             for src in srcs:
                 if src[0] == "rv" and src[2]["rv"]["k"] == "agg" and (src[2]["rv"].get("adt") or "").endswith("bytecode::Instruction"):
-                    deltas.add(instr_delta(src[2]["rv"]["variant"], src[2]["rv"]["ops"]))
+                    v_, ops_ = src[2]["rv"]["variant"], src[2]["rv"]["ops"]
+                    d_ = instr_delta(v_, ops_)
+                    if d_ is None and v_ == "Tuple" and ops_ and self._empty_tuple_id(ops_[0]):
+                        d_ = 1
+                    if v_ == "TailCall":
+                        tail = True
+                    deltas.add(d_)
                 else:
                     deltas.add(None)
             if len(deltas) != 1:
                 return None if h != DEAD else DEAD
+            if tail and h != DEAD:
+                # the height at which the frame is replaced: what sits below the argument (and callee) stays on the operand stack for ever
+                k = ("tc", bi)
+                if k in labels and labels[k] != h:
+                    raise Conflict("the tail call emitted at %s executes at heights %+d and %+d" % (b.loc(bi).split(":")[-1], labels[k], h))
+                labels[k] = h
             return self._bump(h, next(iter(deltas)))
         if m in ("emit_jump_placeholder", "emit_jump_if_placeholder", "emit_duplicate_jump_if_nil", "emit_type_check_branch"):
             if h == DEAD:
@@ -497,6 +515,20 @@ class EmitAnalysis:
             return h + summ["ret"]
         return h
 
+    def _empty_tuple_id(self, o):
+        """the operand is the id returned by register_tuple(None, <empty vec>): the nil tuple (arity 0)."""
+        p = op_place(o)
+        if p is None:
+            return False
+        for src in self.fln.sources(p["l"]):
+            if src[0] != "call" or not (src[2].get("callee") or "").endswith("Program::register_tuple") or len(src[2]["args"]) < 3:
+                return False
+            vp = op_place(src[2]["args"][2])
+            vs = self.fln.sources(vp["l"]) if vp else []
+            if not vs or not all(x[0] == "call" and (x[2].get("callee") or "").endswith("Vec::new") for x in vs):
+                return False
+        return True
+
     def _resolve(self, vals, labels):
         out = set()
         for v in vals:
@@ -546,6 +578,24 @@ class EmitAnalysis:
                     labs.setdefault(k[1], set()).add(v)
         labels = {p: next(iter(v)) for p, v in labs.items() if len(v) == 1}
         return {"ret": ret, "labels": labels, "label_conflicts": {p: sorted(v) for p, v in labs.items() if len(v) > 1}}
+
+    def conditional(self):
+        """per combination of facts about the PARAMETERS that held at a return (flag / Option parameters): the set of net effects and the heights of
+        tail calls and label jumps. {facts-string: {"ret": [..], "at": {"tc@line"/"param#i": [..]}}}; None when the exploration was cut short."""
+        if not self.complete:
+            return None
+        out = {}
+        tcs = sorted({k[1] for _pf, _h, labels in self.cond_returns for k, _v in labels if k[0] == "tc"})
+        for pf, h, labels in self.cond_returns:
+            key = ",".join("%s=%s" % (("d%d" % k[1]) if isinstance(k, tuple) else ("p%d" % k), v) for k, v in sorted(pf, key=str)) or "-"
+            ent = out.setdefault(key, {"ret": set(), "at": {}})
+            ent["ret"].add("dead" if h == DEAD else ("?" if h is None else h))
+            for k, v in labels:
+                if k[0] == "param":
+                    ent["at"].setdefault("param#%d" % k[1], set()).add(v)
+                elif k[0] == "tc":
+                    ent["at"].setdefault("tailcall#%d" % tcs.index(k[1]) if k[1] in tcs else "tailcall", set()).add(v)
+        return {k: {"ret": sorted(map(str, v["ret"])), "at": {a: sorted(x) for a, x in sorted(v["at"].items())}} for k, v in sorted(out.items())}
 
 
 def emitters(F):
